@@ -18,6 +18,7 @@ pub mod reflect;
 pub mod codegen;
 pub mod tls;
 pub mod balance;
+pub mod admission;
 
 /// Shared event recorder so that events survive a panic or hang of the run.
 #[derive(Clone, Default)]
@@ -61,6 +62,7 @@ fn run_one(lab: &str, stim: &Value, rec: &Rec) {
         "richerr" => richerr::run(stim, rec),
         "reflect" => reflect::run(stim, rec),
         "balance" => balance::run(stim, rec),
+        "admission" => admission::run(stim, rec),
         "codegen" => codegen::run(stim, rec),
         "tls" => tls::run(stim, rec),
         _ => { eprintln!("unknown lab {lab}"); std::process::exit(2) }
